@@ -238,6 +238,10 @@ class FitYamlReader(YamlReaderMixin, FitDReprBase):
 
         if _read_parametric_model is not None:
             _fit_object._param_model = _read_parametric_model
+            # the fit has to hear about the uncertainty sources of the model that was read, now and when they change
+            _read_parametric_model._on_error_change_callback = _fit_object._on_error_change
+            if _read_parametric_model.has_errors:
+                _fit_object._on_error_change()
 
         _constraint_yaml_list = yaml_doc.pop("parameter_constraints", None)
         if isinstance(_constraint_yaml_list, dict):
